@@ -11,6 +11,7 @@
 -/
 import PyIkev2.Proofs.Machine
 import PyIkev2.Proofs.HandlersKernel
+import PyIkev2.Proofs.WholeSad
 
 namespace PyIkev2.Props.C10
 open PyIkev2 PyIkev2.Impl
@@ -199,5 +200,97 @@ example : SadI [([9], 50, [0xe])] [10] [11]
   refine ⟨rfl, rfl, ?_, by decide, by decide⟩
   intro e
   simp [keysX, kidKeys, outKey, inKey, demo, ipsecProto]
+
+/-! ### the whole model, whole histories
+
+  `wholeStep` (Proofs/WholeSad.lean) is one `select` round of the shell instantiated with the concrete handlers — the very function
+  the `xiter` replay compares with every real loop iteration — followed by the kernel executing, in order, the netlink requests the
+  round issued.  `Sync` says: the kernel SAD is exactly the table's CHILD_SAs, every entry once, every table entry's view of its
+  CHILD_SAs the projection of its records — unless the model ever gave two objects one SPI (`clash`; Python objects have identity,
+  the model has 64 random bits). -/
+
+theorem keysOfCore_eq (s : SaCore) : keysOfCore s = keysOf s := rfl
+
+/-- the state after start-up (SAD flushed, no IKE_SA) is in sync -/
+theorem c10_whole_model_start (tape : Tape) (confs : List (Bytes × Bytes × Conf)) (threshold : Nat) :
+    Sync ({ tape := tape, exts := [], confs := confs, sad := [] }, { sas := [], threshold := threshold }) := by
+  right
+  exact { spis := List.nodup_nil, objs := fun s hs => by simp at hs, sad := fun k => by simp [tableKeys],
+          nodup := List.nodup_nil }
+
+/-- **every history of the whole model — any number of IKE_SAs, any interleaving of datagrams (authentic or not, duplicated,
+    reordered), ACQUIREs, EXPIREs, status queries, clock ticks with retransmission / DPD / lifetime sweeps, kernel refusals and
+    oracle values — up to the first IKE_SA rekey**: after every round the kernel SAD is exactly the two SAs of every CHILD_SA of
+    every IKE_SA in the table, each once.
+
+    Partial: the hypothesis `hcalm` stops the statement at the first round that begins an IKE_SA rekey of our own (state
+    REK_IKE_SA_REQ_SENT / a successor object exists), and `EvOK` excludes CREATE_CHILD_SA requests that rekey the IKE_SA.  Through an
+    IKE_SA rekey the SAs are the *successor's* before it is in the table; the statement for that (`c10_concrete_handover`, the
+    SAD = tracked oracle after every event of every campaign) is not lifted to histories. -/
+theorem c10_whole_model_history_partial (evs : List (Nat × LoopEv)) (w : XWorld) (c : Ctl) (h0 : Sync (w, c))
+    (hcalm : ∀ k, k < evs.length → ∀ s ∈ (wholeRun (w, c) (evs.take k)).2.sas, s.succ = none ∧ s.core.st ≠ stREK_IKE_SA_REQ_SENT)
+    (hev : ∀ x ∈ evs, EvOK x.2) (hclash : (wholeRun (w, c) evs).1.clash = false) :
+    (∀ k, k ∈ (wholeRun (w, c) evs).1.sad ↔ k ∈ (wholeRun (w, c) evs).2.sas.flatMap (fun s => keysOf s.core)) ∧
+    ((wholeRun (w, c) evs).2.sas.flatMap (fun s => keysOf s.core)).Nodup ∧
+    ((wholeRun (w, c) evs).2.sas.map (·.core.mySpi)).Nodup := by
+  rcases wholeRun_sync evs (w, c) h0 hcalm hev with h | h
+  · rw [hclash] at h; cases h
+  · exact ⟨h.sad, h.nodup, h.spis⟩
+
+/-- one round: what the kernel holds afterwards is what it held before with the round's netlink requests applied in order -/
+theorem c10_whole_model_round_kernel (wc : XWorld × Ctl) (x : Nat × LoopEv) :
+    (wholeStep wc x).1.sad = (loopIter concreteHandlers wc.1 wc.2 x.1 x.2).2.nl.foldl applyNl wc.1.sad := rfl
+
+/-! non-vacuity of the history theorem: an ESTABLISHED IKE_SA with one CHILD_SA whose two SAs are in the kernel; a hard EXPIRE
+   (DELETE request goes out), an ACQUIRE meanwhile (queued), then the peer stays silent: four retransmissions, the IKE_SA is
+   removed with DELSA for both SAs.  Every hypothesis of the theorem holds, the SAD has two entries for the first three rounds
+   and none at the end. -/
+
+def exProp : Proposal :=
+  { num := 1, proto := 1, spi := [], transforms := [{ ttype := 1, id := 12, keylen := some 256 }, { ttype := 3, id := 12, keylen := none },
+      { ttype := 2, id := 5, keylen := none }, { ttype := 4, id := 14, keylen := none }] }
+def exCP : Proposal := { exProp with proto := 3 }
+def exTs (a : Bytes) : TS := { tsType := 7, ipProto := 0, startPort := 0, endPort := 65535, startAddr := a, endAddr := a }
+def exConf : Conf :=
+  { proposal := exProp,
+    protect := [{ myTs := exTs [10,0,0,1], peerTs := exTs [10,0,0,2], index := 5, mode := 1, lifetime := 300, proposal := exCP }],
+    myIdType := 2, myIdData := [97], peerIdType := 2, peerIdData := [98], dpd := 60 * 1024, lifetime := 900 * 1024 }
+def exKid : Child :=
+  { inSpi := [0xa,0,0,1], outSpi := [0xb,0,0,2], orig := exCP, proposal := exCP, tsi := [exTs [10,0,0,1]], tsr := [exTs [10,0,0,2]],
+    mode := 1, lifetime := 300 }
+def exCore : SaCore :=
+  { st := stESTABLISHED, isInit := true, mySpi := [1,1,1,1,1,1,1,1], peerSpi := [2,2,2,2,2,2,2,2], myId := 2, peerId := 0, keyed := true,
+    lastResp := none, request := none, rtxAt := 0, rtx := 0, dpdAt := 100000, rekeyAt := 900000, deleteAt := 930000, dpd := 61440,
+    children := [exKid.ref], pending := [], indices := [5], myAddr := [192,168,0,1], peerAddr := [192,168,0,2], cookie := false }
+def exW : XWorld :=
+  { tape := { vals := [.bytes [1,2,3,4,5,6,7,8], .num 3, .bytes [9,9,9,9], .bytes [7,7], .bytes [5,5], .bytes [6,6]] },
+    exts := [([1,1,1,1,1,1,1,1], { conf := exConf, kids := [exKid] })], confs := [([192,168,0,1], [192,168,0,2], exConf)],
+    sad := [([192,168,0,2], 50, [0xb,0,0,2]), ([192,168,0,1], 50, [0xa,0,0,1])] }
+def exC : Ctl := { sas := [{ core := exCore, succ := none }] }
+def exEvs : List (Nat × LoopEv) :=
+  [(1000, { expire := some ([0xa,0,0,1], true) }),
+   (2000, { acquire := some ([192,168,0,9], [192,168,0,2], exTs [10,0,0,1], exTs [10,0,0,2], 5) }),
+   (5000, {}), (20000, {}), (40000, {}), (80000, {}), (160000, {})]
+
+example : Sync (exW, exC) := by
+  right
+  refine { spis := by decide, objs := ?_, sad := ?_, nodup := by decide }
+  · intro s hs
+    simp only [exC, List.mem_singleton] at hs
+    subst hs
+    exact ⟨{ conf := exConf, kids := [exKid] }, by decide, by decide⟩
+  · intro k
+    have : tableKeys exC.sas = exW.sad := by decide
+    rw [this]
+
+example : (∀ k, k < exEvs.length → ∀ s ∈ (wholeRun (exW, exC) (exEvs.take k)).2.sas, s.succ = none ∧ s.core.st ≠ stREK_IKE_SA_REQ_SENT) ∧
+    (wholeRun (exW, exC) exEvs).1.clash = false ∧ (wholeRun (exW, exC) (exEvs.take 3)).1.sad.length = 2 ∧
+    (wholeRun (exW, exC) (exEvs.take 3)).2.sas.map (·.core.st) = [stDEL_CHILD_REQ_SENT] ∧
+    (wholeRun (exW, exC) exEvs).1.sad = [] ∧ (wholeRun (exW, exC) exEvs).2.sas = [] := by decide
+
+example : ∀ x ∈ exEvs, EvOK x.2 := by
+  intro x hx
+  simp only [exEvs, List.mem_cons, List.not_mem_nil, or_false] at hx
+  rcases hx with rfl | rfl | rfl | rfl | rfl | rfl | rfl <;> exact ⟨(by intro h p a b m hd; simp at hd), (by intro h p a b hd; simp at hd)⟩
 
 end PyIkev2.Props.C10
